@@ -17,6 +17,7 @@ esarsag_step (the behaviour distribution is part of the step) on the RECORDED di
 2^-44, with tolerance 1e-9, and the recorded distribution is compared (1e-9) against
 eps/n + (1-eps)*softmax(Q(ns,.)/temp) computed here from the MODEL's own row at ns (table_rows trace).
 """
+import json
 import math
 from fractions import Fraction as F
 import vlib
@@ -43,8 +44,8 @@ Local Open Scope Q_scope.
 Definition S_ (s a : nat) (r : Q) (ns na : nat) (c : bool) (p : nat) (d : list (nat * Q)) : event Q :=
   EStep (mkStep s a r ns na c p d).
 Definition B_ (s : nat) : event Q := EStart s.
-Definition chk nS nA P R av ab ini g q0 al ep L evs ik iq ip tol :=
-  @c10_check Q NumQ (mk_mdp nS nA P R av ab ini g) q0 al ep L evs ik iq ip tol.
+Definition chk nS nA P R av ab ini g q0 al ep L evs ik iq ip tol atol :=
+  @c10_check Q NumQ (mk_mdp nS nA P R av ab ini g) q0 al ep L evs ik iq ip tol atol.
 (* numbers leave Coq as (numerator, denominator) pairs: 8.16 prints dyadic Q values in hexadecimal notation *)
 Definition qz (x : Q) : bool * Z * Z := (Z.ltb (Qnum x) 0, Z.abs (Qnum x), Zpos (Qden x)).
 (* rows Q(ns, .) of the model's table just before each step (expected SARSA, temperature check) *)
@@ -251,12 +252,28 @@ def gen_case(rng, tier):
             "initial_q": iq, "episodes": episodes, "seed": seed, "global_seed": gseed,
             "labels": gen_labels(rng, m), "form": rng.choice(["quick", "quick", "class", "quickmdp", "quick_init_state"]),
             "int_params": rng.random() < .3, "pretouch": rng.random() < .2, "int_rewards": rng.random() < .25,
-            "shared_actions": rng.random() < .6, "reuse_mdp_object": rng.random() < .5}
+            "shared_actions": rng.random() < .6, "reuse_mdp_object": rng.random() < .5,
+            # construction with positional hyper-parameters in the documented order
+            # (episodes, step_size, rand_choose, softmax_temp, initial_q, seed)
+            "positional": rng.random() < .4,
+            # next_state_dist / initial_state_dist hand out ONE DictDistribution object, rewritten on every call
+            "scratch_dists": rng.random() < .25}
+    if iq["kind"] == "table" and family not in ("scale",) and rng.random() < .4:
+        # callable initial_q that is not a pure function (k-th question about (s,a) answered base + k/4; for double Q
+        # a call-counting one with pure values: which of its two tables gets which answer is not specified)
+        iq["kind"], iq["delta"] = "stateful", ("0" if learner == "dq" else "1/4")
     if rng.random() < .3:
         # object reuse: the SAME learner object is trained on A, then on B (same state and action labels,
         # independently drawn absorbing set / action sets / transitions / rewards / discount), then on A again;
         # the runner also reuses the MDP OBJECT of A for the third call
         nb = max(2, min(6, n + rng.choice([0, 0, -1, 1]))) if family != "long" else n   # B may differ in size
+        if family != "long" and rng.random() < .35:
+            # B = the SAME MDP object edited in place between the calls (memoised distributions refilled, rewards,
+            # discount changed): same states / action sets / absorbing set, every transition row redrawn
+            case["stages"] = [m, rewire(rng, m), m]
+            case["episodes"] = min(episodes, 8)
+            case["edit_in_place"] = True
+            return case
         for _ in range(40):
             mb = gen_mdp.gen_mdp(rng, nmax=nb, amax=3, gamma=rng.choice(GAMMAS), proper=True, min_states=nb)
             if mb["nA"] == nA and family != "long":
@@ -265,7 +282,7 @@ def gen_case(rng, tier):
                 big = m if n >= nb else mb
                 case["labels"] = gen_labels(rng, big)
                 case["labels"]["a_order"] = None   # action sets differ between the stages: ids in sorted order
-                if iq["kind"] == "table":
+                if iq["kind"] in ("table", "stateful"):
                     while len(iq["table"]) < nb:
                         iq["table"].append(list(rng.choice(iq["table"])))
                 break
@@ -355,6 +372,70 @@ def exact_rewards(case, res):
     return cnt
 
 
+def observe_initial_q(case, res):
+    """stateful callable initial_q: builds the stage's initial table from the FIRST answer given for each (s, a) and checks
+    that every entry of a non-absorbing table state was asked exactly once per table (2 tables for double Q) and nothing
+    else was asked.  Returns (clause, where) or (None, None)."""
+    m, iq = case["mdp"], case["initial_q"]
+    base = [[F(x) for x in row] for row in iq["table"]]
+    obs = [list(row) for row in base]
+    counts = {}
+    for s, a, v in res["iq_calls"]:
+        if (s, a) not in counts:
+            obs[s][a] = vlib.frac(v)
+        counts[(s, a)] = counts.get((s, a), 0) + 1
+    case["q0_observed"] = obs
+    want = {}
+    per = 2 if case["learner"] == "dq" else 1
+    for s in res["keys"]:
+        if 0 <= s < m["n"] and not m["absorbing"][s]:
+            for a in m["actions"][s]:
+                want[(s, a)] = per
+    if counts != want:
+        diff = sorted(set(counts.items()) ^ set(want.items()))[:6]
+        return "callable initial_q is not asked exactly once per entry of the table (a stateful initial_q gives other values)", \
+               {"asked": {"%d,%d" % k: v for k, v in counts.items()}, "expected": {"%d,%d" % k: v for k, v in want.items()}, "first_differences": str(diff)}
+    return None, None
+
+
+def rewire(rng, m):
+    """another problem on the SAME states, action sets, absorbing set: every row of a non-absorbing state is redrawn
+    (fresh successor set, k/8 probabilities, fresh rewards); properness is kept by forcing a successor strictly
+    nearer (shortest-path distance in m) to the absorbing set into every row"""
+    n = m["n"]
+    dist = {s: 0 for s in range(n) if m["absorbing"][s]}
+    changed = True
+    while changed:
+        changed = False
+        for k, row in m["trans"].items():
+            s = int(k.split(",")[0])
+            ds = [dist[ns] + 1 for ns, p in row if F(p) > 0 and ns in dist]
+            if ds and (s not in dist or min(ds) < dist[s]) and not m["absorbing"][s]:
+                dist[s] = min(ds)
+                changed = True
+    mb = json.loads(json.dumps(m))
+    mb["reward"] = {k: v for k, v in m["reward"].items() if m["absorbing"][int(k.split(",")[0])]}
+    for k, row in m["trans"].items():
+        s, a = map(int, k.split(","))
+        if m["absorbing"][s] or s not in dist:
+            continue
+        succ = rng.sample(range(n), rng.randint(1, min(3, n)))
+        closer = [x for x in range(n) if dist.get(x, n + 1) < dist[s]]
+        if not any(x in closer for x in succ):
+            succ[0] = rng.choice(closer)
+        succ = list(dict.fromkeys(succ))
+        cuts = sorted(rng.sample(range(1, 8), len(succ) - 1)) if len(succ) > 1 else []
+        parts = [b_ - a_ for a_, b_ in zip([0] + cuts, cuts + [8])]
+        mb["trans"][k] = [[ns, str(F(p, 8))] for ns, p in zip(succ, parts)]
+        for ns in succ:
+            if rng.random() < .8:
+                r = F(rng.randint(-16, 16), 4)
+                if r != 0:
+                    mb["reward"]["%d,%d,%d" % (s, a, ns)] = str(r)
+    mb["gamma"] = rng.choice(GAMMAS)
+    return mb
+
+
 def falsy_id(lab, which):
     """id carrying a falsy label (0 / "" / () / False) under the case's label scheme, or None"""
     scheme = lab.get(which, "int")
@@ -370,6 +451,8 @@ def falsy_id(lab, which):
 def q0_table(case):
     n, nA = case["mdp"]["n"], case["mdp"]["nA"]
     iq = case["initial_q"]
+    if case.get("q0_observed") is not None:     # stateful initial_q: the values it actually returned in this stage
+        return case["q0_observed"]
     if iq["kind"] in ("const", "int"):
         return [[F(iq["value"])] * nA for _ in range(n)]
     return [[F(x) for x in row] for row in iq["table"]]
@@ -448,6 +531,11 @@ def annotate(case, res):
         return t[s]
     ok = True
     idx = 0
+    mag = [F(0)]
+
+    def see(*xs):
+        mag[0] = max([mag[0]] + [abs(x) for x in xs])
+    res["_mag"] = F(0)
     for ep_i, epi in enumerate(res["episodes"]):
         steps = epi["steps"]
         if kind == "sarsa" and 0 <= epi["start"] < m["n"]:
@@ -490,6 +578,7 @@ def annotate(case, res):
                             "closest_candidate_relative_error": str(float(best[0])) if best else None}
                 _, coin, pick, new = best
                 st["coin"], st["pick"] = coin, pick
+                see(r, t1[s][a], t2[s][a], new, *t1[ns].values(), *t2[ns].values())
                 (t1 if coin else t2)[s][a] = new
             else:
                 row(t1, s)
@@ -506,8 +595,11 @@ def annotate(case, res):
                     mx = max(rn.values())
                     k = sum(1 for v in rn.values() if v == mx)
                     tgt = sum(v * (ep / len(rn) + ((1 - ep) / k if v == mx else 0)) for v in rn.values())
+                see(r, t1[s][a], tgt, *rn.values())
                 t1[s][a] = t1[s][a] + al * (r + g * tgt - t1[s][a])
+                see(t1[s][a])
             idx += 1
+            res["_mag"] = mag[0]
     return None, None
 
 
@@ -593,7 +685,7 @@ def oracle(case, res):
                 exp_after = [t1[s][a]]
             got = [vlib.frac(x) for x in st.get("after", []) if not isinstance(x, str)]
             for gx, ex in zip(got if len(got) == len(exp_after) else [], exp_after):
-                if abs(gx - ex) > oracle_tol(case) * (1 + abs(ex)):
+                if abs(gx - ex) > oracle_tol(case) * (1 + abs(ex) + res.get("_mag", F(0))):
                     where.update({"written": [str(x) for x in got], "update_rule_gives": [str(x) for x in exp_after]})
                     return None, where, "entry written at a step is not the update rule applied to the table"
             idx += 1
@@ -672,7 +764,7 @@ def search_failing(case, res, impl_rows, impl_pol):
         if set(t[s]) != set(impl_rows[s]):
             return "returned row does not span the available actions", {"state": s}
         for a in t[s]:
-            if abs(t[s][a] - impl_rows[s][a]) > oracle_tol(case) * (1 + abs(t[s][a])):
+            if abs(t[s][a] - impl_rows[s][a]) > oracle_tol(case) * (1 + abs(t[s][a]) + res.get("_mag", F(0))):
                 return "returned Q-value is not the update rule folded over the experience", \
                        {"state": s, "action": a, "returned": str(impl_rows[s][a]), "fold": str(t[s][a])}
     # policy w.r.t. the returned table
@@ -784,6 +876,11 @@ def run(ctx):
             continue
         parsed[i] = (impl_rows, impl_pol)
         n_nondyadic_rewards = exact_rewards(case, res)
+        if case["initial_q"]["kind"] == "stateful":
+            clause, where = observe_initial_q(case, res)
+            if clause:
+                ctx.violation("C10:%s:%s" % (kind, clause), {"case": case, "failing_clause": clause, "where": where, "impl": res}, found=True)
+                continue
         mk = model_kind(case)
         gen = mk == "esarsag"
         nsteps = sum(len(e["steps"]) for e in res["episodes"])
@@ -813,8 +910,9 @@ def run(ctx):
         iq = qmat(dense(case, impl_rows))
         ip = qmat(dense(case, {s: pol for s, pol in enumerate(impl_pol)}))
         tol = TOL_GEN if gen else TOL
-        terms.append("chk %s %s %s %s %s %s %s %s %s %s" % (
-            mt, q0t, q(case["alpha"]), q(case["eps"]), LEARNER[mk], evs, natlist(res["keys"]), iq, ip, q(tol)))
+        atol = tol * res.get("_mag", F(0))      # rounding is relative to the largest operand the run has seen
+        terms.append("chk %s %s %s %s %s %s %s %s %s %s %s" % (
+            mt, q0t, q(case["alpha"]), q(case["eps"]), LEARNER[mk], evs, natlist(res["keys"]), iq, ip, q(tol), q(atol)))
         meta.append(("chk", i))
         if gen:
             terms.append("rowsb %s %s %s %s" % (mt, q0t, q(case["alpha"]), evs))
@@ -858,6 +956,10 @@ def run(ctx):
         hit("policy_state_absent_from_table", any(s not in impl_rows for s in range(m["n"])))
         hit("initial_q:" + case["initial_q"]["kind"])
         hit("family_ties:" + kind, case.get("family") == "ties" and allsteps)
+        hit("stateful_initial_q_with_steps:" + kind, case["initial_q"]["kind"] == "stateful" and allsteps)
+        hit("positional_construction:" + kind, case.get("positional"))
+        hit("scratch_distribution_object_rewritten_per_call", case.get("scratch_dists") and allsteps)
+        hit("mdp_object_edited_in_place_between_calls", case.get("edit_in_place") and case.get("stage", 0) >= 1 and allsteps)
         # audit round 2 classes
         hit("(1)esarsa_eps_2^-27..2^-30_effective", kind == "esarsa" and 0 < ep_ <= F(1, 2**27) and F(case["alpha"]) > 0 and
             any(not m["absorbing"][st["ns"]] and len(m["actions"][st["ns"]]) >= 2 for st in allsteps))
@@ -1006,6 +1108,8 @@ def run(ctx):
 "non-dyadic family (thirds/tenths/sevenths in probabilities, rewards, gamma, step size, eps); long-episode family (~1000-step episodes, "
                 "Fraction oracle only); scale family bases 2^20 (gap 2^-12), 2^10 (gap 2^-8), 0 (gap 2^-30); eps 2^-27/2^-30; B of a different size; "
                 "int-typed rewards; one shared action-list object; caller-object snapshots before/after; earlier results re-queried after later calls; "
+                "stateful (call-logging, base + k/4) callable initial_q; positional construction in the documented parameter order (40%%); "
+                "MDPs handing out one scratch DictDistribution rewritten per call (25%%); sequences whose B is the same MDP object edited in place; "
                 "10%% softmax-expectation family (expected SARSA, temperature 1/2 or 2, eps 0 or 1/20, step size > 0, distinct initial Q, 3-6 episodes); "
                 "18%% tie family (>= 2 actions everywhere, non-zero constant / per-state-constant initial_q, temperature 0, eps in {0,1/20}: "
                 "tied NON-ZERO maximal Q-values at non-absorbing next states; expected SARSA weighted 3x); "
